@@ -5,6 +5,7 @@ import (
 	"fmt"
 	"os"
 
+	"verifharness/vsession"
 	"verifharness/vstore"
 )
 
@@ -16,6 +17,8 @@ func main() {
 	switch os.Args[1] {
 	case "store":
 		os.Exit(vstore.Main(os.Args[2:]))
+	case "session":
+		os.Exit(vsession.Main(os.Args[2:]))
 	default:
 		fmt.Fprintln(os.Stderr, "unknown sub-command", os.Args[1])
 		os.Exit(2)
